@@ -230,3 +230,16 @@ def run(ck):
             ws.add(f.q)
     ck.ob('C24.own', 'C24.own/active_peer_requests_', ws and ws <= {N + 'note_dispatch_start', N + 'note_dispatch_end', N + 'Node'}, '',
           'active_peer_requests_ is written only by note_dispatch_start / note_dispatch_end (found: %s)' % sorted(x.split('::')[-1] for x in ws))
+
+    # ---- (backoff) the delay is computed from the attempt that was just made: attempts is advanced before the next attempt is scheduled ----
+    from sa.paths import must_precede as _mp
+    dp_ = P.fn(N + 'dispatch_pending_fetch')
+    ck.touch(dp_)
+    sched_ = [i for i in dp_.walk() if dp_.nodes[i].get('callee') == N + 'schedule_next_fetch_attempt']
+    incs_ = [i for i in dp_.walk() if dp_.nodes[i]['k'] in ('CompoundAssignOperator', 'UnaryOperator') and dp_.nodes[i].get('op') in ('+=', '++') and
+             dp_.nodes[dp_.strip(dp_.kids(i)[0])].get('m', '').endswith('PendingFetchState::attempts')]
+    ck.floor('C24.backoff', 'schedule_next_fetch_attempt calls in dispatch_pending_fetch', len(sched_), 1)
+    bad_ = _mp(dp_, sched_, lambda e: e in incs_ or any(dp_.is_in(x, e) for x in incs_) and dp_.nodes[e]['k'] in ('ExprWithCleanups',)) if incs_ else [('no increment', ['no `attempts += 1`'])]
+    ck.ob('C24.backoff', 'C24.backoff/attempts-counted-before-scheduling', not bad_, dp_.loc(sched_[0]) if sched_ else dp_.loc(),
+          'in dispatch_pending_fetch `attempts` is incremented on every path before schedule_next_fetch_attempt derives the delay from it '
+          '(otherwise the first two retries wait the same time)', bad_[0][1] if bad_ else None)
